@@ -19,7 +19,7 @@ import (
 // clock has reached the deadline; a closed-stream / session error after close, peer close, session close or peer
 // death; virtual completion time within the code's own bound.
 
-const ms = vrt.Millisecond
+
 
 type c11Call struct {
 	name     string
